@@ -393,11 +393,11 @@ def dt_bump(t, *bumps, aggregate = 'last'):
                 elif bmp.endswith('w'):
                     t  = t + DAY * (7 * int(bmp[:-1]))
                 elif bmp.endswith('m'):
-                    t = _ymd(t.year, t.month + int(bmp[:-1]), t.day)
+                    t = _ymd(t.year, t.month + int(bmp[:-1]), t.day).replace(tzinfo = t.tzinfo) # the bumped date stays in the zone of t
                 elif bmp.endswith('q'):
-                    t = _ymd(t.year, t.month + 3  * int(bmp[:-1]), t.day)
+                    t = _ymd(t.year, t.month + 3  * int(bmp[:-1]), t.day).replace(tzinfo = t.tzinfo)
                 elif bmp.endswith('y'):
-                    t = _ymd(t.year+int(bmp[:-1]), t.month, t.day)
+                    t = _ymd(t.year+int(bmp[:-1]), t.month, t.day).replace(tzinfo = t.tzinfo)
                 elif bmp.endswith('h'):
                     t = t + datetime.timedelta(hours = int(bmp[:-1]))
                 elif bmp.endswith('n'):
